@@ -386,23 +386,45 @@ def oracle(c, stats):
     # retype + pair coefficients
     from mofun.atomic_masses import ATOMIC_MASSES
     a = make_atoms(n, bonds, [], [])
+
+    def check_retyped(types, what):
+        labels, els, masses = list(a.atom_type_labels), list(a.atom_type_elements), list(a.atom_type_masses)
+        if not (len(labels) == len(els) == len(masses) == len(a.pair_coeffs)):
+            raise Violation("retype-table-lengths", "%s: %d labels, %d elements, %d masses, %d pair rows" % (what, len(labels), len(els), len(masses), len(a.pair_coeffs)))
+        if len(a.atom_types) != n:
+            raise Violation("retype-atom-types-length", "%s: %d atom types for %d atoms" % (what, len(a.atom_types), n))
+        for i in range(n):
+            t = int(a.atom_types[i])
+            el = types[i][0:2].replace("_", "")
+            if not 0 <= t < len(labels):
+                raise Violation("retype", "%s: atom %d has type id %d, table has %d rows" % (what, i, t, len(labels)))
+            if labels[t] != types[i] or els[t] != el or abs(masses[t] - ATOMIC_MASSES[el]) > 1e-12:
+                raise Violation("retype", "%s: atom %d with UFF type %s resolves to label %r element %r mass %r" % (what, i, types[i], labels[t], els[t], masses[t]))
+            nums, names = parse_coeff(str(a.pair_coeffs[t]))
+            want = U.pair_coeffs(types[i])
+            if not numbers_equal(nums, [float("%10.6f" % want[0]), float("%10.6f" % want[1])]) or names != [types[i]]:
+                raise Violation("pair-coeffs-row", "%s: atom %d (%s): row %r, pair_coeffs gives %r" % (what, i, types[i], str(a.pair_coeffs[t]), want))
+        if len(set(labels)) != len(labels):
+            raise Violation("retype-duplicate-type", "%s: labels %r" % (what, labels))
+
     with silenced():
         U.retype_atoms_from_uff_types(a, list(types))
         U.assign_pair_coeffs(a)
-    labels, els, masses = list(a.atom_type_labels), list(a.atom_type_elements), list(a.atom_type_masses)
-    if not (len(labels) == len(els) == len(masses) == len(a.pair_coeffs)):
-        raise Violation("retype-table-lengths", "%d labels, %d elements, %d masses, %d pair rows" % (len(labels), len(els), len(masses), len(a.pair_coeffs)))
-    for i in range(n):
-        t = int(a.atom_types[i])
-        el = types[i][0:2].replace("_", "")
-        if labels[t] != types[i] or els[t] != el or abs(masses[t] - ATOMIC_MASSES[el]) > 1e-12:
-            raise Violation("retype", "atom %d with UFF type %s resolves to label %r element %r mass %r" % (i, types[i], labels[t], els[t], masses[t]))
-        nums, names = parse_coeff(str(a.pair_coeffs[t]))
-        want = U.pair_coeffs(types[i])
-        if not numbers_equal(nums, [float("%10.6f" % want[0]), float("%10.6f" % want[1])]) or names != [types[i]]:
-            raise Violation("pair-coeffs-row", "atom %d (%s): row %r, pair_coeffs gives %r" % (i, types[i], str(a.pair_coeffs[t]), want))
-    if len(set(labels)) != len(labels):
-        raise Violation("retype-duplicate-type", "labels %r" % labels)
+    check_retyped(types, "first retyping")
+    # the same object typed again: the same set of UFF types handed out to other atoms (a corrected typing), then a
+    # typing that uses only some of them
+    types2 = [types[pi[i]] for i in range(n)]
+    with silenced():
+        U.retype_atoms_from_uff_types(a, list(types2))
+        U.assign_pair_coeffs(a)
+    check_retyped(types2, "second retyping of the same object, same set of types on other atoms")
+    if types2 != list(types):
+        stats.count("retyped-again-with-permuted-types")
+    types3 = [types[0] if i % 2 else types[i] for i in range(n)]
+    with silenced():
+        U.retype_atoms_from_uff_types(a, list(types3))
+        U.assign_pair_coeffs(a)
+    check_retyped(types3, "third retyping of the same object")
     # classification
     for k in set(c["kinds"]):
         stats.count("graph:" + re.sub(r"\d+", "", k))
